@@ -8,7 +8,7 @@ META = dict(
         quick="whole runs through Retry/AsyncRetry call+execute: (a) caps x classes {TRANSIENT,UNKNOWN,PERMANENT} x "
               "{exception,result} x strategy-table presence x budget tokens, frozen clock, N=2; (b) symbolic timings x "
               "deadline x max_attempts x budget, N=3; (c) abort_if answers x sleep-handler decisions x budget x "
-              "max_attempts, N=3; step harness: one failure pushed through _RetryState._handle_failure + "
+              "max_attempts, N=3, handler/sleeper given per call and (N=2) at policy level; step harness: one failure pushed through _RetryState._handle_failure + "
               "_sync_failure_outcome + determine_action_from_outcome from an ARBITRARY state (all 8 classes, both "
               "causes, attempt/counters/limits/cap unbounded ints, real timings, budget fill, poll answers, handler "
               "decision, sleeper overshoot)",
@@ -116,6 +116,8 @@ def check_run(w, trace, result, sym):
                     return ("nw:handler", f"sleep handler consulted after attempt {i} although no retry was permitted")
             elif k == "sleep":
                 slept = True
+                if handler_dec is None and (w.has_handler or (w.place and (w.place["h_pol"] or w.place["h_call"]))):
+                    return ("nw:handler_not_consulted", f"slept after attempt {i} without consulting the configured sleep handler")
                 if not w_pre or token_refused or poll_true or handler_dec not in (None, SleepDecision.SLEEP):
                     return ("nw:sleep", f"slept after attempt {i} although no retry was permitted / handler={handler_dec}")
         if w.tokens is not None and w_pre and not token_asked and not poll_true:
@@ -341,6 +343,14 @@ def jobs(tier):
                         params=dict(entry=entry, N=N, kinds=["ok", "exc", "res"], classes=["TRANSIENT"], abort=True,
                                     handler=True, budget="sym"),
                         max_wall_s=wall, weight=3))
+    # (c') the same with the handler and the sleeper configured at POLICY level (constructor), not per call
+    for entry in CORE:
+        out.append(dict(name=f"ctl-policy-level:{entry}", harness="rv.props.c03:h_run",
+                        params=dict(entry=entry, N=2 if q else 3, kinds=["ok", "exc", "res"], classes=["TRANSIENT"], abort=True,
+                                    budget="sym", place=True,
+                                    pin_place={"h_pol": True, "h_call": False, "b_pol": False, "b_call": False, "s_pol": True,
+                                               "s_call": False}),
+                        max_wall_s=wall, weight=2))
     if not q:
         for entry in CORE:
             out.append(dict(name=f"all:{entry}", harness="rv.props.c03:h_run",
